@@ -327,7 +327,7 @@ let c08_clause_name = function
   | QGhostMode -> "ghost-mode" | QSpecialElsewhere -> "special-elsewhere" | QNoConffilesMember -> "no-conffiles-member"
 
 let run_c08 ic =
-  let n = ref 0 and n_dis = ref 0 and n_fail = ref 0 and n_err = ref 0 in
+  let n = ref 0 and n_dis = ref 0 and n_fail = ref 0 and n_err = ref 0 and n_conf = ref 0 in
   iter_cases ic (fun _ -> ()) (fun c ->
       incr n;
       let f = fmt_of_string c.format in
@@ -347,7 +347,11 @@ let run_c08 ic =
             | FDeb | FIpk -> conffiles_model cs | FArch -> backups_model cs | _ -> [] in
           let flags_model = List.map (fun (e : pentry) -> (e.pe_path, e.pe_flags, e.pe_inpayload)) (payload_of f c.mtime cs) in
           let flags_obs = List.map (fun (e : pentry) -> (e.pe_path, e.pe_flags, e.pe_inpayload)) obs in
-          let agree = conf_obs = conf_model && flags_model = flags_obs in
+          let rawconf = List.fold_left (fun acc (tag, t) -> if tag = "rawlist" && t.(1) = "conffiles" then Some (unhex t.(2)) else acc) None c.extra in
+          let text_ok = (match f, rawconf with
+              | (FDeb | FIpk), Some raw -> incr n_conf; conffiles_text conf_model = raw && conffiles_read raw = Some conf_model
+              | _ -> true) in
+          let agree = conf_obs = conf_model && flags_model = flags_obs && text_ok in
           let clauses = check_C08 f cs has conf_obs obs in
           let mclauses = check_C08 f cs true conf_model (payload_of f c.mtime cs) in
           if not agree then incr n_dis;
@@ -356,11 +360,12 @@ let run_c08 ic =
             report c.id agree (List.sort_uniq compare (List.map c08_clause_name clauses))
               (List.sort_uniq compare (List.map c08_clause_name mclauses))
               (if agree then [] else
-                 ["model conf: " ^ String.concat "," (List.map implode conf_model);
+                 [(if text_ok then "conffiles text as the model writes it" else "the conffiles member is not the text the model writes (one path per line, newline-terminated)");
+                  "model conf: " ^ String.concat "," (List.map implode conf_model);
                   "impl conf:  " ^ String.concat "," (List.map implode conf_obs);
                   "model flags: " ^ String.concat "," (List.map (fun (p, fl, ip) -> Printf.sprintf "%s=%d/%b" (implode p) (int_of_n fl) ip) flags_model);
                   "impl flags:  " ^ String.concat "," (List.map (fun (p, fl, ip) -> Printf.sprintf "%s=%d/%b" (implode p) (int_of_n fl) ip) flags_obs)]));
-  Printf.printf "SUMMARY cases=%d disagreements=%d impl_failures=%d impl_errors=%d\n" !n !n_dis !n_fail !n_err
+  Printf.printf "SUMMARY cases=%d disagreements=%d impl_failures=%d impl_errors=%d conffiles_texts_rewritten_by_the_model=%d\n" !n !n_dis !n_fail !n_err !n_conf
 
 (* ---------- C09 ---------- *)
 let c09_clause_name = function SExact -> "slots-exact" | SInstall -> "install-member" | SMode -> "script-mode"
@@ -408,7 +413,7 @@ let c03_clause_name = function
 let starts_with p s = String.length s >= String.length p && String.sub s 0 (String.length p) = p
 
 let run_c03 ic =
-  let n = ref 0 and n_dis = ref 0 and n_fail = ref 0 and n_err = ref 0 and n_dig = ref 0 and n_mtree = ref 0 in
+  let n = ref 0 and n_dis = ref 0 and n_fail = ref 0 and n_err = ref 0 and n_dig = ref 0 and n_mtree = ref 0 and n_md5 = ref 0 in
   iter_cases ic (fun _ -> ()) (fun c ->
       incr n;
       let f = fmt_of_string c.format in
@@ -449,7 +454,16 @@ let run_c03 ic =
                | _ -> ["no single .PKGINFO member beside the .MTREE"])
             | _ -> []) in
         let mtree_ok = List.for_all (fun (k, v) -> (not (starts_with "mtree_" k)) || v) c.structs && mtree_notes = [] in
-        let clauses = check_C03 f payload md5 has_md5 installed digests sizes mtree_ok in
+        (* deb: the md5sums member as text - the model's text for the payload is the stored member, and its reader gets the pairs back *)
+        let rawlist k = List.fold_left (fun acc (tag, t) -> if tag = "rawlist" && t.(1) = k then Some (unhex t.(2)) else acc) None c.extra in
+        let md5_notes = (match f, rawlist "md5sums" with
+            | FDeb, Some raw ->
+              incr n_md5;
+              let want = md5sums_model payload in
+              (if md5sums_text want = raw then [] else ["the md5sums member is not the text the model writes for the payload shipped"])
+              @ (if md5sums_read raw = Some want then [] else ["the md5sums reader of the model does not recover one (digest, name) pair per regular payload file"])
+            | _ -> []) in
+        let clauses = check_C03 f payload md5 (has_md5 && md5_notes = []) installed digests sizes mtree_ok in
         (* the model's prediction of the size estimate from the plan: sum of planned sizes *)
         let agree = (match model_prepared c, f with
             | Ok cs, (FDeb | FIpk) ->
@@ -468,9 +482,9 @@ let run_c03 ic =
         if clauses <> [] then incr n_fail;
         if clauses <> [] || not agree then
           report c.id agree (List.sort_uniq compare (List.map c03_clause_name clauses)) []
-            (mtree_notes @ List.filter_map (fun (nm, s, r) -> if s <> r || s = "" then Some (Printf.sprintf "digest %s stored=%s recomputed=%s" nm s r) else None) c.digests
+            (mtree_notes @ md5_notes @ List.filter_map (fun (nm, s, r) -> if s <> r || s = "" then Some (Printf.sprintf "digest %s stored=%s recomputed=%s" nm s r) else None) c.digests
              @ List.filter_map (fun (nm, s, r) -> if s <> r then Some (Printf.sprintf "size %s stored=%d recomputed=%d" nm s r) else None) c.sizes));
-  Printf.printf "SUMMARY cases=%d disagreements=%d impl_failures=%d impl_errors=%d digests_and_sizes_recomputed=%d mtree_texts_rewritten_by_the_model=%d\n" !n !n_dis !n_fail !n_err !n_dig !n_mtree
+  Printf.printf "SUMMARY cases=%d disagreements=%d impl_failures=%d impl_errors=%d digests_and_sizes_recomputed=%d mtree_texts_rewritten_by_the_model=%d md5sums_texts_rewritten_by_the_model=%d\n" !n !n_dis !n_fail !n_err !n_dig !n_mtree !n_md5
 
 (* ---------- C04 ---------- *)
 let c04_clause_name = function
